@@ -1623,99 +1623,6 @@ def rule_cycle_check_first(ctx, rid, r):
            "graph parameter is rebound after the check")
 
 
-def rule_kahn(ctx, rid, f):
-    """Kahn generator: counts = distinct predecessors; zero-count nodes seed the worklist; a popped node decrements
-    each distinct successor once and pushes it at zero; after the loop a cycle is reported iff some count is
-    still positive (idiom table: any(counts.values()) | yielded-count != number of nodes | guarded counter)."""
-    m = ctx.model
-    mod = f.module
-    body = f.node.body
-    whiles = [n for n in f.own_nodes() if isinstance(n, ast.While)]
-    if len(whiles) != 1:
-        raise AnalysisError(f"{f.qualname}: expected one worklist loop")
-    w = whiles[0]
-    decs = [n for n in ast.walk(w) if isinstance(n, ast.AugAssign) and isinstance(n.op, ast.Sub) and isinstance(n.target, ast.Subscript)]
-    if len(decs) != 1 or not isinstance(decs[0].target.value, ast.Name):
-        raise AnalysisError(f"{f.qualname}: expected one subscript decrement in the worklist loop")
-    table = decs[0].target.value.id
-    # final verdict
-    after = body[body.index(w) + 1:] if w in body else []
-    raises = [n for s in after for n in ast.walk(s) if isinstance(n, ast.Raise)]
-    ok = len(raises) == 1
-    ctx.ob(rid, f"{f.short}/raises-after-loop", ok, loc(f), "cycle verdict is raised after the worklist loop" if ok else
-           "no cycle verdict after the worklist loop")
-    if not ok:
-        return
-    conds = path_condition(mod, raises[0], f.node)
-    if len(conds) != 1 or not conds[0][1]:
-        raise AnalysisError(f"{f.qualname}: cycle verdict guard not recognised")
-    t = conds[0][0]
-    txt = norm(t)
-    if txt == f"any({table}.values())":
-        ctx.ob(rid, f"{f.short}/verdict", True, loc(f, raises[0]), "cycle iff some remaining count is positive", txt)
-    elif isinstance(t, ast.Compare) and len(t.ops) == 1 and isinstance(t.ops[0], (ast.NotEq, ast.Lt)) and \
-            any(s in txt for s in ("len(graph)", "number_of_nodes()", "len(graph.nodes")):
-        # yielded-node counter: must be incremented once per popped node, unguarded
-        cn = [x for x in names_in(t) if x not in ("graph", "len")]
-        incs = [n for n in ast.walk(w) if isinstance(n, ast.AugAssign) and isinstance(n.op, ast.Add) and is_name(n.target, cn[0])] if cn else []
-        ok = len(incs) == 1 and incs[0] in w.body and const(incs[0].value) == 1
-        ctx.ob(rid, f"{f.short}/verdict", ok, loc(f, raises[0]), "cycle iff fewer nodes were emitted than the graph has" if ok
-               else "emitted-node counter is not incremented exactly once per popped node", txt)
-    else:
-        # guarded counter idiom: a counter of nodes-with-predecessors, decremented when such a node becomes ready
-        names = [x for x in names_in(t)]
-        ok = False
-        why = f"cycle verdict `{txt}` is not a recognised idiom"
-        if len(names) == 1:
-            c = names[0]
-            decs_c = [n for n in ast.walk(w) if isinstance(n, ast.AugAssign) and isinstance(n.op, ast.Sub) and is_name(n.target, c)]
-            zero_ifs = [n for n in ast.walk(w) if isinstance(n, ast.If) and table in names_in(n.test) and "== 0" in norm(n.test)]
-            if decs_c and zero_ifs:
-                ok = all(any(inside(mod, d, z) and in_body(mod, d, z, "body") for z in zero_ifs) for d in decs_c)
-                why = ("counter of nodes with predecessors is decremented exactly when such a node becomes ready" if ok else
-                       "the counter is initialised with the nodes that have predecessors but decremented for every "
-                       "popped node (sources included): populations differ, so some cyclic graphs are accepted")
-            else:
-                raise AnalysisError(f"{f.qualname}: {why}")
-        else:
-            raise AnalysisError(f"{f.qualname}: {why}")
-        ctx.ob(rid, f"{f.short}/verdict", ok, loc(f, raises[0]), why, txt)
-    # push only at zero, inside the successor loop of the popped node
-    zero_ifs = [n for n in ast.walk(w) if isinstance(n, ast.If) and table in names_in(n.test)]
-    ok = len(zero_ifs) == 1 and norm(zero_ifs[0].test).endswith("== 0") and any(
-        isinstance(x, ast.Call) and isinstance(x.func, ast.Attribute) and x.func.attr == "append" for s in zero_ifs[0].body for x in ast.walk(s))
-    ctx.ob(rid, f"{f.short}/push-at-zero", ok, loc(f), "a successor is pushed exactly when its count reaches zero" if ok else
-           "worklist push is not guarded by `count == 0`")
-    # count initialisation class == successor iteration class
-    init_cls = None
-    for n in f.own_nodes():
-        if isinstance(n, ast.Assign) and isinstance(n.value, ast.Call) and is_name(n.value.func, "len"):
-            a0 = n.value.args[0]
-            if isinstance(a0, ast.Subscript):
-                base = a0.value
-                o = None
-                if isinstance(base, ast.Name):
-                    b = [b for b in f.bindings.get(base.id, []) if b[0] == "assign"]
-                    if len(b) == 1 and isinstance(b[0][1], ast.Attribute):
-                        o = b[0][1].attr
-                elif isinstance(base, ast.Attribute):
-                    o = base.attr
-                if o in ("pred", "_pred"):
-                    init_cls = DISTINCT_PRED
-    sl = [n for n in ast.walk(w) if isinstance(n, ast.For) and decs[0] in list(ast.walk(n))]
-    it_cls = None
-    if sl:
-        it = sl[0].iter
-        if isinstance(it, ast.Subscript) and isinstance(it.value, ast.Name):
-            b = [b for b in f.bindings.get(it.value.id, []) if b[0] == "assign"]
-            if len(b) == 1 and isinstance(b[0][1], ast.Attribute) and b[0][1].attr in ("succ", "_succ", "adj"):
-                it_cls = DISTINCT_PRED
-        else:
-            it_cls = classify_neighbor_iter(m, f, it, "succ")
-    if init_cls is None or it_cls is None:
-        raise AnalysisError(f"{f.qualname}: count initialisation / successor iteration not in the networkx API table")
-    ctx.ob(rid, f"{f.short}/counting-class", init_cls == it_cls, loc(f),
-           f"counts are {init_cls}, successor iteration is {it_cls}")
 
 
 # ------------------------------------------------------------------------------------------------ C07.L8 / C10.F3
